@@ -1,5 +1,6 @@
 (* C03/Driver.v — entry points for the correspondence run (sites L, G, S, J of harness/src/bin/c03.rs) *)
-From RM Require Import C08.Model C03.Model C03.ArgModel C03.FetchModel.
+From RM Require Import C08.Model C03.Model C03.ArgModel C03.FetchModel C03.ProcessModel.
+From RM Require C05.Model C05.Driver.
 Open Scope Z_scope.
 
 Definition lim_z (l : limit) : Z := match l with Unlimited => -1 | Limited v => v end.
@@ -75,5 +76,44 @@ Definition run_read_u64 (regs : list (Z * list Z)) (addr : Z) : option Z :=
   let rs := map (fun e => {| r_base := fst e; r_size := Z.of_nat (length (snd e)); r_bytes := snd e |}) regs in
   match fetch_instruction_bytes Debug rs 4194304 with
   | Ret (Some b) => if 2 <=? Z.of_nat (length b) then read_u64_at rs addr else None
+  | _ => None
+  end.
+
+(* T cases (round 5): the thread loop of into_process_state on a synthesized dump without symbol files.
+   archid as in C05/Driver.v (0 x86, 1 amd64, 2 arm, 3 arm64, 4 mips, 5 mips64, 6 arm64-old), 7 = a CPU whose context decodes but
+   has no unwinder (ppc, ppc64, sparc).  A context is (ip, sp, fp, lr), all registers valid (what a context read from a dump
+   is); a thread = (id, context, its own stack memory (base, bytes), raw.stack.start_of_memory_range).
+   Walker oracles: module lookup / max module address / instruction_seems_valid_by_symbols as C05/Driver.v instantiates them
+   for modules WITHOUT symbols (walk_frame of the provider answers None: no CFI).
+   Result per thread: (thread id, CallStackInfo 0 Ok | 1 MissingContext | 2 DumpThreadSkipped,
+   [(instruction, trust code of C05/Driver.v)], unloaded-module offsets per frame); None = Panic / OutOfFuel. *)
+Definition t_ctx (c : Z * Z * Z * Z) : ctx :=
+  let '(ip, sp, fp, lr) := c in
+  ({| C05.Model.r_ip := ip; C05.Model.r_sp := sp; C05.Model.r_fp := fp; C05.Model.r_lr := lr; C05.Model.r_gp := [] |}, C05.Model.VAll).
+Definition t_region (e : Z * list Z) : region :=
+  {| r_base := fst e; r_size := Z.of_nat (length (snd e)); r_bytes := snd e |}.
+Definition info_code (i : stack_info) : Z :=
+  match i with InfoOk => 0 | InfoMissingContext => 1 | InfoDumpThreadSkipped => 2 end.
+Definition run_process (archid os : Z)
+    (threads : list (Z * option (Z * Z * Z * Z) * option (Z * list Z) * Z))
+    (dump_tid crash_tid req_tid : option Z) (exc : option (Z * Z * Z * Z))
+    (mem : list (Z * list Z)) (mods unl : list (Z * Z))
+  : option (list (Z * Z * list (Z * Z) * list (list Z)) * option Z) :=
+  let pi := {| pi_threads := map (fun t => let '(id, c, st, start) := t in
+                                    {| th_id := id; th_ctx := option_map t_ctx c; th_stack := option_map t_region st;
+                                       th_stack_start := start |}) threads;
+               pi_dump_tid := dump_tid; pi_crash_tid := crash_tid; pi_req_tid := req_tid;
+               pi_exc_ctx := option_map t_ctx exc; pi_memory := map t_region mem; pi_unloaded := unl |} in
+  let ms : list C05.Driver.modspec := map (fun m => (fst m, snd m, None)) mods in
+  let cpu := if archid =? 0 then CpuX86 else if archid =? 1 then CpuAmd64 else if archid =? 2 then CpuArm
+             else if archid =? 3 then CpuArm64 else if (archid =? 4) || (archid =? 5) then CpuMips
+             else if archid =? 6 then CpuArm64Old else CpuPpc in
+  match process_threads Debug cpu (C05.Driver.arch_of archid) os (C05.Driver.d_module_at ms) (C05.Driver.d_max_module_addr ms)
+          (fun _ _ _ _ => None) (C05.Driver.d_instr_valid ms) pi with
+  | Ret (outs, req) =>
+      Some (map (fun o => (o_id o, info_code (o_info o),
+                           map (fun f => (C05.Model.f_instr f, C05.Driver.trust_code (C05.Model.f_trust f))) (o_frames o),
+                           o_unloaded o)) outs,
+            option_map Z.of_nat req)
   | _ => None
   end.
